@@ -13,7 +13,7 @@ RULE = ("programs = try_rebind!{pattern = expr} and rebind_if_ok!{pattern = expr
         "value or a tuple of 2..=6 components, every position being an existing place (local, struct field, array index), "
         "`let x`, `let x: T`, `let (a, b)`, `let mut x`, `let ref x`, `_` or `_: T` - complete for arity <= 3, seeded sample for 4..=6 - each run on an Ok "
         "and an Err input; oracle = a hand-written `match` in the same program (assign every component in order, leave every "
-        "place untouched on Err, propagate the error for try_rebind!), compared on a snapshot of all places and bindings; "
+        "place untouched on Err, propagate the error for try_rebind!), compared on a snapshot of all places and bindings and of an evaluation counter inside the right-hand expression (evaluated exactly once); "
         "every program is first compiled alone: a pattern of any arity 1..=6 that does not compile while its hand-written "
         "twin does is a violation; non-trivial = arity >= 3 or mixed position kinds, counted per distinct program")
 
@@ -59,9 +59,9 @@ def render(i, macro, kinds):
         payload_ty = "(%s)" % ", ".join(types)
         pat = "(%s)" % ", ".join(c[0] for c in comps)
         tuple_payload = True
-    snap_names = ["a%d" % j for j in range(6)] + ["st.f0", "st.f1", "arr[0]", "arr[1]", "arr[2]"]
+    snap_names = ["a%d" % j for j in range(6)] + ["st.f0", "st.f1", "arr[0]", "arr[1]", "arr[2]", "evals.get()"]
     lets = [nm for c in comps for nm in c[3]]
-    pre = ("    let (mut a0, mut a1, mut a2, mut a3, mut a4, mut a5) = (100, 101, 102, 103, 104, 105);\n"
+    pre = ("    let evals = std::cell::Cell::new(0u32);\n    let (mut a0, mut a1, mut a2, mut a3, mut a4, mut a5) = (100, 101, 102, 103, 104, 105);\n"
            "    let mut st = St { f0: 200, f1: 201 };\n    let mut arr = [300, 301, 302];\n")
     snap = "format!(\"{:?}\", (%s))" % ", ".join("(%s)" % ", ".join(chunk) for chunk in [snap_names[:6], snap_names[6:]])
     snap_in = "format!(\"{:?} {:?}\", (%s), (%s,))" % (", ".join("(%s)" % ", ".join(chunk) for chunk in [snap_names[:6], snap_names[6:]]),
@@ -71,14 +71,14 @@ def render(i, macro, kinds):
     else:
         oracle_assign = comps[0][2].format(v="t")
     if macro == "try_rebind":
-        k = ("fn k_%d(input: Result<%s, i32>) -> Result<String, i32> {\n%s    konst::try_rebind!{%s = input}\n    Ok(%s)\n}" %
+        k = ("fn k_%d(input: Result<%s, i32>) -> Result<String, i32> {\n%s    konst::try_rebind!{%s = { evals.set(evals.get() + 1); input }}\n    Ok(%s)\n}" %
              (i, payload_ty, pre, pat, snap_in))
-        o = ("fn o_%d(input: Result<%s, i32>) -> Result<String, i32> {\n%s    let t = match input { Ok(t) => t, Err(e) => return Err(e) };\n    %s\n    Ok(%s)\n}" %
+        o = ("fn o_%d(input: Result<%s, i32>) -> Result<String, i32> {\n%s    let t = match { evals.set(evals.get() + 1); input } { Ok(t) => t, Err(e) => return Err(e) };\n    %s\n    Ok(%s)\n}" %
              (i, payload_ty, pre, oracle_assign, snap_in))
     else:
-        k = ("fn k_%d(input: Result<%s, i32>) -> Result<String, i32> {\n%s    let mut inner = String::from(\"<not run>\");\n    konst::rebind_if_ok!{%s = input =>\n        inner = %s;\n    }\n    Ok(format!(\"{} | {}\", inner, %s))\n}" %
+        k = ("fn k_%d(input: Result<%s, i32>) -> Result<String, i32> {\n%s    let mut inner = String::from(\"<not run>\");\n    konst::rebind_if_ok!{%s = { evals.set(evals.get() + 1); input } =>\n        inner = %s;\n    }\n    Ok(format!(\"{} | {}\", inner, %s))\n}" %
              (i, payload_ty, pre, pat, snap_in, snap))
-        o = ("fn o_%d(input: Result<%s, i32>) -> Result<String, i32> {\n%s    let mut inner = String::from(\"<not run>\");\n    if let Ok(t) = input {\n        %s\n        inner = %s;\n    }\n    Ok(format!(\"{} | {}\", inner, %s))\n}" %
+        o = ("fn o_%d(input: Result<%s, i32>) -> Result<String, i32> {\n%s    let mut inner = String::from(\"<not run>\");\n    if let Ok(t) = { evals.set(evals.get() + 1); input } {\n        %s\n        inner = %s;\n    }\n    Ok(format!(\"{} | {}\", inner, %s))\n}" %
              (i, payload_ty, pre, oracle_assign, snap_in, snap))
     # the Ok input value: distinct numbers per component
     vals = []
